@@ -426,6 +426,22 @@ def _walk_fn(fnode):
                 stack.append(c)
 
 
+def _refilled_from_argument(f, attr, guard_node):
+    """after the guarded creation of self.<attr>, the same function assigns element-wise into the buffer from a
+    parameter: `for i, j in zip(self.<attr>, p): i.assign(j)` (any statement that mentions the buffer, a parameter and
+    an .assign call)"""
+    params = {p for p in f.all_param_names() if p not in ("self", "cls")}
+    for st in f.node.body:
+        if st is guard_node or getattr(st, "lineno", 0) <= getattr(guard_node, "lineno", 0):
+            continue
+        names = {x.id for x in ast.walk(st) if isinstance(x, ast.Name)}
+        has_buf = any(isinstance(x, ast.Attribute) and x.attr == attr and isinstance(x.value, ast.Name) and x.value.id == "self" for x in ast.walk(st))
+        has_assign = any(isinstance(x, ast.Call) and isinstance(x.func, ast.Attribute) and x.func.attr == "assign" for x in ast.walk(st))
+        if has_buf and has_assign and names & params:
+            return True
+    return False
+
+
 def check_persistent_state(repo, chk, prefixes, rule="P-state"):
     """a method must not keep, on the object, a value computed from the arguments of one call and serve it to later
     calls made with other arguments: (1) `if <self.A not set yet>: self.A = f(args)`; (2) `if k not in self.C:
@@ -449,6 +465,17 @@ def check_persistent_state(repo, chk, prefixes, rule="P-state"):
                 if isinstance(st, ast.Assign) and len(st.targets) == 1 and isinstance(st.targets[0], ast.Name) and isinstance(st.value, ast.Attribute) and isinstance(st.value.value, ast.Name) and st.value.value.id == "self":
                     alias[st.targets[0].id] = st.value.attr
             pm = parent_map(f.node)
+            # a container chosen by a test on an argument (one table per value of the flag) carries that argument
+            alias_params = {}
+            for st in _walk_fn(f.node):
+                if isinstance(st, ast.Assign) and len(st.targets) == 1 and isinstance(st.targets[0], ast.Name) and st.targets[0].id in alias:
+                    cur_ = st
+                    while cur_ in pm and not isinstance(pm[cur_], (ast.FunctionDef, ast.AsyncFunctionDef)):
+                        cur_ = pm[cur_]
+                        if isinstance(cur_, ast.If):
+                            alias_params.setdefault(st.targets[0].id, set()).update(pd(cur_.test))
+                    if isinstance(st.value, ast.IfExp):
+                        alias_params.setdefault(st.targets[0].id, set()).update(pd(st.value.test))
 
             def cont_attr(base):
                 if isinstance(base, ast.Attribute) and isinstance(base.value, ast.Name) and base.value.id == "self":
@@ -499,6 +526,8 @@ def check_persistent_state(repo, chk, prefixes, rule="P-state"):
                     if guard is None:
                         continue
                     vp, kp = pd(n.value), pd(t.slice)  # the KEY must carry the arguments; a guard that mentions them does not key the entry
+                    if isinstance(t.value, ast.Name):
+                        kp = kp | alias_params.get(t.value.id, set())   # ... or the choice of the table does
                     if vp and not vp <= kp:
                         hits.append((attr, n, "`self.%s[%s] = %s` under `%s`: the value depends on the argument(s) %s, the key does not" % (attr, norm_text(t.slice)[:30], norm_text(n.value)[:50], norm_text(guard.test)[:40], sorted(vp - kp))))
             short = "%s.%s" % (f.cls.name, f.name)
@@ -507,9 +536,15 @@ def check_persistent_state(repo, chk, prefixes, rule="P-state"):
                 if (attr, node.lineno) in done:
                     continue
                 done.add((attr, node.lineno))
-                if (short, attr) in PSTATE_BENIGN:
+                ben = PSTATE_BENIGN.get((short, attr))
+                if ben is None:
+                    # the same buffer of the same class handled in a helper method (split / renamed method)
+                    ben = next((v for (k0, k1), v in PSTATE_BENIGN.items() if k1 == attr and k0.split(".")[0] in {c_.name for c_ in f.cls.mro}), None)
+                if ben is None and _refilled_from_argument(f, attr, node):
+                    ben = "buffer created once and re-filled from the same argument on every call (element-wise assign after the guard)"
+                if ben is not None:
                     seen_benign.add((short, attr))
-                    chk.instance(rule, "%s: %s - frozen as benign: %s" % (f.key, msg, PSTATE_BENIGN[(short, attr)]), nontrivial=False)
+                    chk.instance(rule, "%s: %s - benign: %s" % (f.key, msg, ben), nontrivial=False)
                     continue
                 chk.instance(rule, "%s: %s" % (f.key, msg))
                 chk.violation(rule, f.key, "memo:%s" % attr, "%s - from the second call on the method serves the value of the first call whatever it is given" % msg, file=rel, line=node.lineno)
@@ -576,6 +611,15 @@ def check_mutable_defaults(repo, chk, prefixes, rule="L6-default"):
     if n_par < 1:
         raise AnalysisError("%s: no mutable default argument found under %s (the rule would pass vacuously)" % (rule, prefixes))
 
+
+# (class, attribute) -> methods that hand each other sequences paired by position (confirmed by reading the callers)
+OITER_GROUPS = {
+    ("SimpleNllFracModel", "constr_frac"): {"eval_normal_factors", "eval_nll_part"},   # the k-th extra normalisation factor belongs to the k-th constraint
+    ("CombineFCN", "fcns"): {"get_nll", "get_nll_grad", "get_nll_grad_hessian", "get_grad", "get_grad_hessp"},   # per-part results summed / concatenated in one order
+    ("HelicityAngle", "decay_chain"): {"find_variable", "build_data", "eval_phsp_factor"},   # find_variable produces the angle lists build_data consumes
+    ("HelicityAngle1", "decay_chain"): {"__init__", "generate_p_mass", "get_phsp_factor"},
+    ("HelicityAngle1", "par"): {"generate_p", "get_phsp_factor"},
+}
 
 _ORDER_BLIND = {"sum", "set", "frozenset", "dict", "any", "all", "max", "min", "len", "sorted", "join", "reduce_sum", "add_n", "reduce_max", "reduce_min", "reduce_prod", "update", "Counter"}
 
@@ -680,6 +724,18 @@ def check_iteration_order_agreement(repo, chk, prefixes, rule="O-iter"):
                     if isinstance(core, ast.Attribute) and isinstance(core.value, ast.Name) and core.value.id == "self":
                         sites.setdefault(core.attr, []).append((kind, mm, x))
             for attr, ss in sorted(sites.items()):
+                # judged are the groups of methods confirmed (by reading) to exchange position-paired sequences; a
+                # traversal of the same attribute elsewhere (a new display helper, a sorted listing) is reported only
+                grp = OITER_GROUPS.get((cls.name, attr))
+                if grp is not None:
+                    for k_, mm_, x_ in ss:
+                        if mm_.name not in grp:
+                            chk.info("%s: %s.%s traverses self.%s in `%s` order outside the confirmed position-paired group %s (not judged)" % (rule, cls.name, mm_.name, attr, k_, sorted(grp)))
+                    ss = [z for z in ss if z[1].name in grp]
+                else:
+                    for k_, mm_, x_ in ss:
+                        chk.info("%s: %s.%s traverses self.%s in `%s` order; no position-paired group is confirmed for this attribute (not judged)" % (rule, cls.name, mm_.name, attr, k_))
+                    continue
                 kinds = {k for k, _, _ in ss}
                 meths = {mm.name for _, mm, _ in ss}
                 if len(meths) < 2:
